@@ -550,7 +550,9 @@ func (m *Model) posts(n *Node, path string, mn *MNode, issuesBefore int) {
 		}
 		return
 	}
-	must := !mn.Skipped && !mn.Caught
+	// documented (anatomy-of-schema): when Catch triggers, execution jumps to the PostTransforms, so they run
+	// on a caught node like on any other; only the absent-optional case is left open
+	must := !mn.Skipped
 	for i, p := range n.PTs {
 		m.Expect = append(m.Expect, MCall{Node: n.ID, Kind: "pt", Idx: i, Must: must})
 		if p.Err != "" {
@@ -569,7 +571,7 @@ func (m *Model) posts(n *Node, path string, mn *MNode, issuesBefore int) {
 					m.Forbid = append(m.Forbid, MCall{Node: n.ID, Kind: "pt", Idx: j})
 				}
 			} else {
-				m.abstain("erroring PostTransform on an absent-optional or caught node")
+				m.abstain("erroring PostTransform on an absent-optional node")
 			}
 			return
 		}
